@@ -56,15 +56,22 @@ impl BindingMapCollector {
 
     pub(crate) fn list_fields(&self) -> impl Iterator<Item = (&str, usize)> {
         let overall_disabled = self.overall_disabled;
-        self.fields.iter().filter_map(move |(key, field)| {
-            if overall_disabled {
-                return None;
-            }
-            match field {
-                BindingMapField::Mapped(x) => Some((key.as_str(), *x)),
-                BindingMapField::Disabled => None,
-            }
-        })
+        let mut list: Vec<_> = self
+            .fields
+            .iter()
+            .filter_map(move |(key, field)| {
+                if overall_disabled {
+                    return None;
+                }
+                match field {
+                    BindingMapField::Mapped(x) => Some((key.as_str(), *x)),
+                    BindingMapField::Disabled => None,
+                }
+            })
+            .collect();
+        // the map iterates in a random order: sort the fields to generate the same code every time
+        list.sort();
+        list.into_iter()
     }
 }
 
